@@ -292,6 +292,8 @@ def _replay(prop_id, path, check_case):
     with open(path) as f:
         rec = json.load(f)
     try:
+        from . import factory
+        factory.new_case()
         res = check_case(rec["case"])
     except Exception as e:
         traceback.print_exc()
